@@ -80,7 +80,7 @@ const (
 	defaultBigMemMB = 6144
 	bigSize         = 16384
 	bigConcurrent   = 4
-	defaultTimeoutS = 90
+	defaultTimeoutS = 240 // a batch takes seconds at most; the margin is for a heavily loaded machine (wall clock)
 	defaultProcs    = 16
 	smallBatch      = 1 << 13
 	perBatch        = 96 // (period, all tails, all sizes) instances per worker request
